@@ -105,7 +105,10 @@ func genWithRefusals(t *rapid.T) vh.ShimCase {
 				if op.Kind == "unlock" {
 					code = vh.CodeUnlock
 				}
-				ops = append(ops, vh.Op{Kind: "plan", Cert: -1, Plan: []vh.FaultRule{{Index: -1, Code: code, Kind: "fail", Remaining: 1}}})
+				// the refusal: a failure reply, or an answer the client cannot decode (malformed, empty) - the
+				// request was not carried out either way
+				kind := rapid.SampledFrom([]string{"fail", "fail", "malformed", "empty"}).Draw(t, fmt.Sprintf("refuseKind%d", i))
+				ops = append(ops, vh.Op{Kind: "plan", Cert: -1, Plan: []vh.FaultRule{{Index: -1, Code: code, Kind: kind, Remaining: 1}}})
 				ops = append(ops, op)
 				ops = append(ops, vh.Op{Kind: "plan", Cert: -1}) // clear the plan
 				continue
@@ -117,7 +120,7 @@ func genWithRefusals(t *rapid.T) vh.ShimCase {
 	return c
 }
 
-const rule = "histories of 1..30 operations interleaving lock / unlock (right, wrong, empty, 300-byte and near-miss passphrases) / close with add, add-hardware-certificate, remove, remove-all, list, signers, sign and out-of-band keyring edits, starting from 0..6 underlying identities and hardware certificates; in a third of the histories the underlying agent refuses individual lock / unlock requests (fault plan on that request kind); in a fifth of the lock episodes a failure of another request kind (list, remove, sign) is pending while the right passphrase is given; in a quarter the underlying agent keeps listing its identities while locked; sometimes it loses its lock behind the shim's back and then refuses every unlock. Inside the lock episodes raw unlock requests that the underlying agent refuses (a passphrase no lock uses, malformed) are also relayed through Forward: a refused request changes nothing. Certificates are current or forever so time cannot interfere. Oracle: model with a locked flag: while locked, list = empty without error, every other listed operation errs, the keyring is unchanged (observed directly) and after the right passphrase the view equals the model's pre-lock view; wrong passphrase => error and still locked; unlock when unlocked => error; a refused lock / unlock leaves the behaviour unchanged (probed by the following operations). Non-trivial: at least one mutating operation attempted while locked and a later successful unlock."
+const rule = "histories of 1..30 operations interleaving lock / unlock (right, wrong, empty, 300-byte and near-miss passphrases) / close with add, add-hardware-certificate, remove, remove-all, list, signers, sign and out-of-band keyring edits, starting from 0..6 underlying identities and hardware certificates; in a third of the histories the underlying agent refuses individual lock / unlock requests (fault plan on that request kind: a failure reply, or a reply the client cannot decode - malformed or empty); in a fifth of the lock episodes a failure of another request kind (list, remove, sign) is pending while the right passphrase is given; in a quarter the underlying agent keeps listing its identities while locked; sometimes it loses its lock behind the shim's back and then refuses every unlock. Inside the lock episodes raw unlock requests that the underlying agent refuses (a passphrase no lock uses, malformed) are also relayed through Forward: a refused request changes nothing. Certificates are current or forever so time cannot interfere. Oracle: model with a locked flag: while locked, list = empty without error, every other listed operation errs, the keyring is unchanged (observed directly) and after the right passphrase the view equals the model's pre-lock view; wrong passphrase => error and still locked; unlock when unlocked => error; a refused lock / unlock leaves the behaviour unchanged (probed by the following operations). Non-trivial: at least one mutating operation attempted while locked and a later successful unlock."
 
 // TestC08Slow: the same histories with an underlying agent that takes seconds to answer the first
 // lock, unlock, list or sign request (a passphrase prompt, a token waiting for a touch). Slowness is
